@@ -29,6 +29,11 @@ def count_true(b, j):
         if ctx is not None:
             ctx.note_cnt(b.arr)
         return _cnt(b.arr, lift(j))
+    if hasattr(b, 'arr') and b.arr is not None and not isinstance(b, NList):
+        ctx = getattr(smt, 'CURRENT_CTX', None)
+        if ctx is not None:
+            ctx.note_cnt(b.arr)
+        return _cnt(b.arr, lift(j))
     if is_sym(b):      # a raw z3 bool array
         ctx = getattr(smt, 'CURRENT_CTX', None)
         if ctx is not None:
@@ -44,9 +49,9 @@ def sig_rule(okta_j, c):
     return And(c < 3, okta_j >= 1 + 2 * c)
 
 
-def SigRel(okta, sig, n=None):
+def SigRel(okta, sig, n=None, atom=None):
     n = ln(okta) if n is None else n
-    return Forall(0, n, lambda j: Iff(sig[j], sig_rule(okta[j], count_true(sig, j))))
+    return Forall(0, n, lambda j: Iff(sig[j], sig_rule(okta[j], count_true(sig, j))), atom=atom)
 
 
 # ---- WMO okta abbreviation ---------------------------------------------------------------------
@@ -157,3 +162,26 @@ def okta_of(n, m, max0, max8):
     if m - n <= max8:
         return 8
     return p2o(Fraction(n, m) * 100)
+
+
+# ---- opaque versions of the code text (reveal only where the text itself matters) --------------------
+#: abbrF / hcodeF are uninterpreted; `reveal_code` gives their definitions at chosen terms.  Obligations that only
+#: need "a code is a non-empty string" never see the string definitions (keeps them out of the string solver).
+abbrF = z3.Function('abbrF', z3.IntSort(), z3.StringSort())
+hcodeF = z3.Function('hcodeF', z3.BoolSort(), z3.RealSort(), z3.StringSort())
+
+
+def code_text(okta_i, base_i):
+    """abbr(okta) ++ hcode(base), opaque form"""
+    return z3.Concat(abbrF(okta_i), hcodeF(lift(_isnan(base_i)), lift(_rv(base_i), z3.RealSort())))
+
+
+def reveal_code(okta_i, base_i):
+    """definitions of the opaque code text at one row"""
+    return [abbrF(okta_i) == abbr(okta_i),
+            hcodeF(lift(_isnan(base_i)), lift(_rv(base_i), z3.RealSort())) == hcode(base_i)]
+
+
+def abbr_len_fact(okta_i):
+    """instance of the proved lemma `abbr_len` (every abbreviation has three characters)"""
+    return z3.Length(abbrF(okta_i)) == 3
